@@ -256,6 +256,11 @@ func PointIndexOK(point string) bool { panic("ghost") }
 //@ modifies fresh
 //@ end
 
+// The insertion-point codec (C01, kernel P1): a point is <field>[:<index>][#<id>]; the id
+// is everything after the FIRST '#', whatever characters it contains.
+//@ define afterHash(p string) string = p[indexof(p, "#")+1:]
+//@ define beforeHash(p string) string = ite(contains(p, "#"), p[:indexof(p, "#")], p)
+
 //@ func (*CachedPointDataExtractor).Extract
 //@ props C09 C01
 //@ returns pd, err
@@ -263,6 +268,10 @@ func PointIndexOK(point string) bool { panic("ghost") }
 //@ requires forallT(k, string, has(e.cache, k) ==> e.cache[k] != nil)
 //@ ensures[inv] forallT(k, string, has(e.cache, k) ==> e.cache[k] != nil)
 //@ ensures[nonnil] err == nil ==> pd != nil
+//@ ensures[id] err == nil && !old(has(e.cache, point)) && contains(point, "#") ==> pd.ID == afterHash(point) @props C01
+//@ ensures[no-id] err == nil && !old(has(e.cache, point)) && !contains(point, "#") ==> pd.ID == "" @props C01
+//@ ensures[field] err == nil && !old(has(e.cache, point)) && !contains(beforeHash(point), ":") ==> pd.Field == beforeHash(point) && pd.Index == -1 @props C01
+//@ ensures[list-field] err == nil && !old(has(e.cache, point)) && contains(beforeHash(point), ":") ==> pd.Field == beforeHash(point)[:indexof(beforeHash(point), ":")] @props C01
 //@ end
 
 //@ func (*DepthExecutorManager).Execute
